@@ -146,8 +146,8 @@ theorem pickDom_ok (dd : Int) (ndim d : Nat) (hdd : -31 ≤ dd ∧ dd ≤ 31) (h
 
 /-! ### the builders resting on the above -/
 
-theorem fillMlyYmd_ok (cand : List Nat) (y mo : Nat) (ds : List Int) (wdMask : Nat) (hc : AllVC y cand)
-    (hm : 1 ≤ mo ∧ mo ≤ 12) (hds : ∀ d ∈ ds, -31 ≤ d ∧ d ≤ 31) : AllVC y (fillMlyYmd cand y mo ds wdMask) := by
+theorem fillMlyYmd_ok (cand : List Nat) (y mo : Nat) (ds : List Int) (dow : List Int) (wdMask : Nat) (hc : AllVC y cand)
+    (hm : 1 ≤ mo ∧ mo ≤ 12) (hds : ∀ d ∈ ds, -31 ≤ d ∧ d ≤ 31) : AllVC y (fillMlyYmd cand y mo ds dow wdMask) := by
   unfold fillMlyYmd
   refine foldl_inv (AllVC y) _ ds cand hc ?_
   intro b dd0 hdd hb
@@ -159,13 +159,14 @@ theorem fillMlyYmd_ok (cand : List Nat) (y mo : Nat) (ds : List Int) (wdMask : N
     · exact hb
     · exact hb.assC (VC_pack y mo dd hm (pickDom_ok dd0 _ dd (hds dd0 hdd) (getNdom_le y mo) hp))
 
-theorem fillYlyYmd_ok (cand : List Nat) (y : Nat) (ms : List Nat) (ds : List Int) (wdMask : Nat) (hc : AllVC y cand)
-    (hms : ∀ m ∈ ms, 1 ≤ m ∧ m ≤ 12) (hds : ∀ d ∈ ds, -31 ≤ d ∧ d ≤ 31) : AllVC y (fillYlyYmd cand y ms ds wdMask) := by
+theorem fillYlyYmd_ok (cand : List Nat) (y : Nat) (ms : List Nat) (ds : List Int) (dow : List Int) (wdMask : Nat)
+    (hc : AllVC y cand) (hms : ∀ m ∈ ms, 1 ≤ m ∧ m ≤ 12) (hds : ∀ d ∈ ds, -31 ≤ d ∧ d ≤ 31) :
+    AllVC y (fillYlyYmd cand y ms ds dow wdMask) := by
   unfold fillYlyYmd
-  exact foldl_inv (AllVC y) _ ms cand hc (fun b m hm hb => fillMlyYmd_ok b y m ds wdMask hb (hms m hm) hds)
+  exact foldl_inv (AllVC y) _ ms cand hc (fun b m hm hb => fillMlyYmd_ok b y m ds dow wdMask hb (hms m hm) hds)
 
-theorem fillYlyYmdAllM_ok (cand : List Nat) (y : Nat) (ds : List Int) (wdMask : Nat) (hc : AllVC y cand)
-    (hds : ∀ d ∈ ds, -31 ≤ d ∧ d ≤ 31) : AllVC y (fillYlyYmdAllM cand y ds wdMask) := by
+theorem fillYlyYmdAllM_ok (cand : List Nat) (y : Nat) (ds : List Int) (dow : List Int) (wdMask : Nat) (hc : AllVC y cand)
+    (hds : ∀ d ∈ ds, -31 ≤ d ∧ d ≤ 31) : AllVC y (fillYlyYmdAllM cand y ds dow wdMask) := by
   unfold fillYlyYmdAllM
   refine foldl_inv (AllVC y) _ _ cand hc ?_
   intro b i hi hb
@@ -242,8 +243,8 @@ theorem fillYlyEastr_ok (cand : List Nat) (y : Nat) (offs : List Int) (mon : Lis
   · exact hb
   · exact hb.assC (okMd_VC y _ (ydToMd_ok y yd (by omega) (by omega)) hm)
 
-theorem fillYlyYd_ok (cand : List Nat) (y : Nat) (doy : List Int) (wdMask : Nat) (hc : AllVC y cand)
-    (hdoy : ∀ d ∈ doy, -366 ≤ d) : AllVC y (fillYlyYd cand y doy wdMask) := by
+theorem fillYlyYd_ok (cand : List Nat) (y : Nat) (doy : List Int) (dow : List Int) (wdMask : Nat) (mp : Bool)
+    (hc : AllVC y cand) (hdoy : ∀ d ∈ doy, -366 ≤ d) : AllVC y (fillYlyYd cand y doy dow wdMask mp) := by
   unfold fillYlyYd
   refine foldl_inv (AllVC y) _ doy cand hc ?_
   intro b yd0 hyd0 hb
@@ -253,12 +254,12 @@ theorem fillYlyYd_ok (cand : List Nat) (y : Nat) (doy : List Int) (wdMask : Nat)
   generalize (if yd0 < 0 then yd0 + 366 + (leapN y : Int) else yd0) = yd at hyd
   split
   · exact hb
-  split
-  · exact hb
   rename_i hle
   split
   · exact hb
   rename_i hm
+  split
+  · exact hb
   exact hb.assC (okMd_VC y _ (ydToMd_ok y _ hyd (by omega)) hm)
 
 theorem ywdToMd_ok (y : Nat) (w : Int) (d : Nat) : okMd y (ywdToMd y w d) = true := by
